@@ -26,12 +26,15 @@ static inline unsigned GetLegacySigOpCount_at(const CBlockView* b, size_t k) { r
 static inline bool Coin_IsSpent_at(const TxView* tx, size_t i) { return 0; }
 static inline size_t CountWitnessSigOps_at(const TxView* tx, size_t i, unsigned flags) { return tx->wit[i]; }
 #define SCRIPT_VERIFY_P2SH (1u << BIT_SCRIPT_VERIFY_P2SH)
+typedef struct { size_t n; const bool* ok; const unsigned char* op; } OpStream;       /* pre-decoded by the harness' own decoder */
+#define LOOP_SIGOPSCAN
 typedef unsigned char value_type; typedef int opcodetype; int g_thrown;
 static inline void ByteVec_push(ByteVec* v, unsigned char b) { v->data[v->size] = b; v->size = v->size + 1; }
 static inline void ByteVec_append(ByteVec* v, const unsigned char* p, size_t n) { for (size_t k = 0; k < n; k++) ByteVec_push(v, p[k]); }
 static inline bool ByteVec_equal_prefix(const ByteVec* e, const ByteVec* s) { for (size_t k = 0; k < e->size; k++) if (e->data[k] != s->data[k]) return 0; return 1; }
 static inline void WriteLE16(unsigned char* p, uint16_t x) { p[0] = (unsigned char)x; p[1] = (unsigned char)(x >> 8); }
 static inline void WriteLE32(unsigned char* p, uint32_t x) { p[0] = (unsigned char)x; p[1] = (unsigned char)(x >> 8); p[2] = (unsigned char)(x >> 16); p[3] = (unsigned char)(x >> 24); }
+static inline bool OpStream_GetOp(const OpStream* s, size_t* pc, int* opcode) { size_t k = *pc; *pc = k + 1; *opcode = s->ok[k] ? s->op[k] : 0xff; return s->ok[k]; }
 #define C06_FUNCS
 #include "slices.h"
 int xc_block_consensus(void) { return BLOCK_CONSENSUS; }
